@@ -7,7 +7,7 @@
    untouched (frame), and adds only justified answers.  By induction this covers every sequence of events:
    HInv holds initially (empty heaps) and Add with a fresh id preserves it (C11_add). *)
 From Coq Require Import Permutation.
-From Verif Require Import Model.Bytes Model.Heap Model.Queue Proofs.HeapFacts Proofs.QueueFacts.
+From Verif Require Import Model.Bytes Model.Heap Model.Queue Proofs.HeapFacts Proofs.QueueFacts Proofs.HeapOrder Proofs.QueueOrder.
 
 (* a notification: never blocks; releases/errs only the waiters it should; one answer each *)
 Theorem C11_notify_never_blocks : forall (canc : nat -> bool) (rev : N) (fuel : nat) (h : list item) cs ans,
@@ -53,9 +53,38 @@ Theorem C11_heapify_permutes : forall l : list item, Permutation (heapify item l
 Proof. exact (heapify_perm item lessi ditem). Qed.
 Print Assumptions C11_pop_removes_root.
 
-(* NOT yet theorems (PARTIAL, see DESIGN.md): the order invariant of the array heap (Peek = minimum), hence
-   "a notification at r leaves no live waiter with revision <= r" - compared by the correspondence runs;
-   the composition over the table map - every handler's frame clause is what it needs. *)
+(* the ORDER invariant of the slice-backed heap (no element smaller than its parent) is established by New and kept
+   by Push and Pop, and it makes the root a minimum *)
+Theorem C11_heap_push_ordered : forall (l : list item) (x : item), hok l -> hok (push item lessi ditem l x).
+Proof. exact (push_ok item lessi ditem lei_trans lessi_le). Qed.
+Theorem C11_heap_pop_ordered : forall (l : list item) (x : item) (l' : list item),
+  hok l -> pop item lessi ditem l = Some (x, l') -> hok l'.
+Proof. exact (pop_ok item lessi ditem lei_trans lessi_le). Qed.
+Theorem C11_heapify_ordered : forall l : list item, hok (heapify item lessi ditem l).
+Proof. exact (heapify_ok item lessi ditem lei_trans lessi_le). Qed.
+Theorem C11_root_is_minimum : forall (h : list item) (e : item), hok h -> peek item h = Some e ->
+  forall x, In x h -> it_rev e <= it_rev x.
+Proof. exact root_min. Qed.
+Print Assumptions C11_heap_pop_ordered.
+Print Assumptions C11_heapify_ordered.
+
+(* over the whole table map and every sequence of events that completes: all heaps stay ordered ... *)
+Theorem C11_heaps_ordered : forall (es : list event) (s : qstate), all_heaps_ok s ->
+  Forall (fun o => o = Fine) (fst (run s es)) -> all_heaps_ok (snd (run s es)).
+Proof. exact run_heaps_ok. Qed.
+Theorem C11_heaps_ordered_initially : all_heaps_ok q0.
+Proof. exact all_heaps_ok0. Qed.
+Print Assumptions C11_heaps_ordered.
+
+(* ... hence promptness: once a notification of leader index r for a table has been handled, nobody in that table's
+   queue still waits for a revision at or below r (cancelled or not); together with C11_notify_never_blocks: every
+   such waiter got exactly one answer, the live ones a success *)
+Theorem C11_released_as_soon_as_notified : forall (s : qstate) (t rev : N) (s' : qstate) (r : option nat),
+  all_heaps_ok s -> step s (ENotify t rev) = (Fine, s', r) ->
+  forall x, In x (hget (heaps s') t) -> rev < it_rev x.
+Proof. exact notify_prompt. Qed.
+Print Assumptions C11_released_as_soon_as_notified.
+
 Example C11_example :
   let evs := [EAdd 1 1 1; EAdd 2 1 2; EAdd 3 1 3; EAdd 4 1 4; EAdd 5 1 5; EAdd 6 1 6; EAdd 7 1 7; ECancel 4;
               ESweep; ERead 4; ESweep; ESweep; ELen 1; ENotify 1 3; ELen 1] in
